@@ -475,17 +475,24 @@ func (e *Exec) runInit(entry *ssa.Function) {
 	save := e.epoch
 	e.epoch = 0
 	defer func() { e.epoch = save }()
-	init := entry.Pkg.Func("init")
-	if init == nil {
-		return
-	}
-	g := &Goroutine{id: 0}
-	e.gs = append(e.gs[:0], g)
-	fr := e.pushFrame(g, init, nil, nil, retGo, nil)
-	fr.initMode = true
 	old := e.maxSteps
 	e.maxSteps = 50000000
-	e.schedule()
+	inits := []*ssa.Function{entry.Pkg.Func("init")}
+	for path, p := range e.P.pkgs {
+		if strings.HasPrefix(path, modPath+"/zz_verif/") {
+			inits = append(inits, p.Func("init"))
+		}
+	}
+	for _, init := range inits {
+		if init == nil {
+			continue
+		}
+		g := &Goroutine{id: 0}
+		e.gs = append(e.gs[:0], g)
+		fr := e.pushFrame(g, init, nil, nil, retGo, nil)
+		fr.initMode = true
+		e.schedule()
+	}
 	e.maxSteps = old
 	e.steps = 0
 	e.callCount = map[string]int{}
